@@ -107,7 +107,28 @@ func (c *c09State) preDeliver(rt *rapid.T, w *nsWorld, h *nsHist, p *nsPacket, f
 	c.pendingHit = &c09Pending{node: xi, peer: peer, index: hd.RemoteIndex, from: from, wrong: !lists}
 }
 
+// forgive clears the bad addresses for every peer a node now holds a tunnel with (a completed
+// handshake with that peer forgives them - documented behaviour). It runs after every single
+// delivery, because a tunnel can complete and be torn down again within one history step.
+func (c *c09State) forgive(w *nsWorld) {
+	if len(c.bad) == 0 {
+		return
+	}
+	for i, x := range w.nodes {
+		if !w.live(i) {
+			continue
+		}
+		hm := x.ctrl.f.hostMap
+		hm.RLock()
+		for a := range hm.Hosts {
+			delete(c.bad, fmt.Sprintf("%s/%v", x.name, a))
+		}
+		hm.RUnlock()
+	}
+}
+
 func (c *c09State) postDeliver(rt *rapid.T, w *nsWorld, h *nsHist, p *nsPacket, from netip.AddrPort, x *nsNode) {
+	c.forgive(w)
 	ph := c.pendingHit
 	c.pendingHit = nil
 	if ph == nil || !ph.wrong {
